@@ -33,7 +33,7 @@ m = {
  },
  'engines': [
   {'name': 'dsim', 'path': 'sim/', 'serves_properties': ['C09', 'C14'],
-   'kind_free_text': 'purpose-built deterministic simulator: fork-per-run of a never-used interpreter, baton-passing real threads pre-empted at sys.settrace line events / cache-dict seam / user-function seam, seeded plan generator, fault injectors (f raises, async abort at a library line, cache clear/evict/prewarm, drop+gc, re-entrancy), fork-of-pristine-parent reference oracle, delta-debugging shrinker, replay files'},
+   'kind_free_text': 'purpose-built deterministic simulator: fork-per-run of a never-used interpreter, baton-passing real threads pre-empted at sys.settrace line events / cache-dict seam / user-function seam, seeded plan generator, fault injectors (f raises, async abort at a library line, cache clear/evict/prewarm/flood, drop+gc+respawn, re-entrancy), hot-line biased pre-emption with atomicity probe, fork-server (identical-heap, no-ASLR) isolation of every run and of every fresh-state reference, delta-debugging shrinker, replay files'},
  ],
  'checks': [
   {
@@ -66,7 +66,7 @@ C14 = {
      'category': 'exploration',
      'text': 'Seeded exploration of streaming histories (lengths 1..200, limexp 3..60, up to 6 live instances fed in scheduler-chosen order on 1..8 threads, retire/respawn). After every feed: EpsAlg is compared with the highest even-order entry of an exact rational epsilon table (witness-scaled tolerance, vanishing differences excluded with a margin); Dea must not raise, must stay finite and non-negative, must agree with dea3 / EpsAlg on the first three terms outside the guards, and must keep abserr >= 5 eps |result| from the third term on; every instance must equal bit-for-bit a lone instance fed the same stream in a fresh interpreter (isolation). Caveat stated in DESIGN 5: there is no clock or I/O here; the schedule dimension is only which instance/thread advances next.',
      'design_ref': 'DESIGN.md section 5'},
-   'level_note': 'Trusts the harness exact-rational Wynn table (about 30 lines) and the witness-scaled tolerance rule; numeric agreement is exact only for prefixes <= 25 terms.',
+   'level_note': 'Trusts the harness exact-rational Wynn table (about 30 lines) and the witness-scaled tolerance rule; exact EpsAlg comparison only for prefixes <= 60 terms (quick) / 120 (thorough) and only where the double witness shows the table entry is well conditioned; Dea values after the third term are not pinned by the property (only totality, finiteness, floor, isolation).',
 }
 import os, sys
 if os.path.exists(os.path.join(os.path.dirname(os.path.abspath(__file__)), 'checks', 'c14.py')):
